@@ -203,14 +203,14 @@ def h_query_groups(ctx, highs):
 
 
 REQUESTS = [set(), {0}, {15}, {0, 15}, {1, 2, 3, 8, 9}, set(range(16)), {5, 7, 10, 12, 14}]
-DESTS = ["short", "int", "group", "broadcast"]
+DESTS = ["short", "int", "group", "broadcast", "unaddressed"]
 
 
 def h_set_groups(ctx, dk, ri, highs):
     req = REQUESTS[ri]
     kind = DESTS[dk]
     g0 = ctx.fresh("g0", 0, 255)
-    g1 = ctx.fresh("g1", 0, 255) if (highs is None or kind in ("group", "broadcast")) \
+    g1 = ctx.fresh("g1", 0, 255) if (highs is None or kind in ("group", "broadcast", "unaddressed")) \
         else highs[ctx.fresh_choice("g1i", len(highs))]
     cur = (g1 << 8) | g0
     a = [0, 63, 17, 32][(ri + dk) % 4]       # the address is not the subject here
@@ -222,11 +222,20 @@ def h_set_groups(ctx, dk, ri, highs):
         dest = A.GearGroup(gsel)
     elif kind == "broadcast":
         dest = A.GearBroadcast()
+    elif kind == "unaddressed":
+        dest = A.GearBroadcastUnaddressed()
     else:
         dest = a if kind == "int" else A.GearShort(a)
-    u = M.Unit("gear", short=a, groups=cur)
+    u = M.Unit("gear", short=255 if kind == "unaddressed" else a, groups=cur)
     other = M.Unit("gear", short=MASKED_OTHER, groups=0x1234)
-    bus = M.Bus([u] if kind in ("group", "broadcast") else [u, other])
+    if kind == "unaddressed":
+        # "all gear without a short address": two of them (they would collide on any query) and an
+        # addressed bystander that must not be touched
+        u2 = M.Unit("gear", short=255, groups=ctx.fresh("h", 0, 0xFFFF))
+        other = M.Unit("gear", short=12, groups=0x1234)
+        bus = M.Bus([u, u2, other])
+    else:
+        bus = M.Bus([u] if kind in ("group", "broadcast") else [u, other])
     st, r = bus.run(S.SetGroups(dest, set(req)))
     if st != "ok":
         ctx.fail("set groups: %s %r" % (st, r), key="setgroups/raised:" + kind)
@@ -246,6 +255,10 @@ def h_set_groups(ctx, dk, ri, highs):
         ctx.prove(E.eq(other.groups, 0x1234), "another unit was changed", key="setgroups/other")
     else:
         ctx.prove(ncfg == 16, "issued %d commands instead of 16" % ncfg, key="setgroups/sixteen:" + kind)
+    if kind == "unaddressed":
+        ctx.prove(E.eq(u2.groups, want), "the second unaddressed unit's membership differs from the request",
+                  key="setgroups/final-second:" + kind)
+        ctx.prove(E.eq(other.groups, 0x1234), "an addressed unit was changed", key="setgroups/other:" + kind)
     ctx.observe("groups", u.groups)
     return "ok"
 
@@ -263,14 +276,14 @@ def cases(tier):
     cs = [Case("types-conforming-%d" % n, h_types_conforming, {"n": n}) for n in range(5)]
     cs.append(Case("types-stream", h_types_stream, {"L": L}))
     cs.append(Case("query-groups", h_query_groups, {"highs": highs}))
-    for dk in range(4):
+    for dk in range(len(DESTS)):
         for ri in range(len(REQUESTS)):
             cs.append(Case("set-groups-%s-%d" % (DESTS[dk], ri), h_set_groups,
                            {"dk": dk, "ri": ri, "highs": [0x00, 0xFF, 0xA5] if tier == "quick" else
                             [0x00, 0xFF, 0xA5, 0x5A, 0x01, 0x80, 0x3C, 0xC3]}))
     # histories: the same sequence twice in one process, with other requests / other units
     nreq = len(REQUESTS)
-    for dk in range(4):
+    for dk in range(len(DESTS)):
         for ri1, ri2 in ((nreq - 1, 1), (2, nreq - 2), (1, 0)):
             if DESTS[dk] in ("short", "int"):
                 continue        # 768 paths per run: the square is out of reach; blind destinations only
